@@ -228,6 +228,65 @@ Theorem typed_array_wf_preserved : forall d d' i w k n,
   (wf d -> w < W64 -> apush d w = Some d' -> wf d').
 Proof. intros d d' i w k n. exact (conj (anew_wf k n) (conj (aset_wf d d' i w) (apush_wf d d' w))). Qed.
 
+(* ---- the array / vec opcodes on their register operands (arrays.inc), index operand included *)
+(* a non-int index word -- a float, integral or not, a bool, null, a pointer -- never selects an
+   element: every load and store arm raises the index error whatever the container (the lenient
+   Get arms answer null); this is also what the generic index load VecLoadP does (c = WAny) *)
+Theorem array_nonint_index_is_index_error : forall c o iw v,
+  as_int iw = None ->
+  op_load c o iw = AErr AEIndex /\ op_store c o iw v = AErr AEIndex /\ op_get c o iw = AOk (Some v_null) o.
+Proof. exact nonint_index_is_index_error. Qed.
+
+Theorem array_negative_index_is_index_error : forall c o iw v z,
+  as_int iw = Some z -> (z < 0)%Z ->
+  op_load c o iw = AErr AEIndex /\ op_store c o iw v = AErr AEIndex.
+Proof. exact negative_index_is_index_error. Qed.
+
+Theorem array_index_out_of_range_is_index_error : forall c d iw z,
+  as_int iw = Some z -> (Z.of_nat (alen d) <= z)%Z ->
+  (want_array c = true -> op_load c (HArray d) iw = AErr AEIndex) /\
+  (want_vec c = true -> op_load c (HVec d) iw = AErr AEIndex).
+Proof. exact load_out_of_range. Qed.
+
+Theorem array_index_in_range_loads_the_element : forall c d iw z,
+  as_int iw = Some z -> (0 <= z < Z.of_nat (alen d))%Z ->
+  exists w, aget d (Z.to_nat z) = Some w /\
+    (want_array c = true -> op_load c (HArray d) iw = AOk (Some w) (HArray d)) /\
+    (want_vec c = true -> op_load c (HVec d) iw = AOk (Some w) (HVec d)).
+Proof. exact load_in_range. Qed.
+
+(* conversely: whenever a load produces a value, it read it at an int index inside the container *)
+Theorem array_load_value_only_from_int_index : forall c o o' iw w,
+  op_load c o iw = AOk (Some w) o' ->
+  o' = o /\ exists z d, as_int iw = Some z /\ (0 <= z < Z.of_nat (alen d))%Z /\
+                        (o = HArray d \/ o = HVec d) /\ aget d (Z.to_nat z) = Some w.
+Proof. exact load_value_spec. Qed.
+
+Theorem array_store_only_at_int_index : forall c o o' iw v r,
+  op_store c o iw v = AOk r o' ->
+  r = None /\ exists z d d', as_int iw = Some z /\ (0 <= z < Z.of_nat (alen d))%Z /\
+     aset d (Z.to_nat z) v = Some d' /\ word_fits (kind_of_data d) v = true /\
+     ((o = HArray d /\ o' = HArray d') \/ (o = HVec d /\ o' = HVec d')).
+Proof. exact store_spec. Qed.
+
+(* the typed load / store arms are the generic index load / store (VecLoadP, VecStoreP) on every
+   container they accept, for EVERY 64-bit index word *)
+Theorem typed_array_ops_are_the_generic_index_ops : forall d iw v,
+  (op_load WArray (HArray d) iw = op_load WAny (HArray d) iw /\
+   op_load WVec (HVec d) iw = op_load WAny (HVec d) iw) /\
+  (op_store WArray (HArray d) iw v = op_store WAny (HArray d) iw v /\
+   op_store WVec (HVec d) iw v = op_store WAny (HVec d) iw v).
+Proof. intros d iw v. exact (conj (typed_load_is_generic_load d iw) (typed_store_is_generic_store d iw v)). Qed.
+
+Example C06_array_opcode_nonvacuous :
+  op_load WArray (HArray (DFloats [0x4025000000000000; 0x4034800000000000])) 0x3FF0000000000000 = AErr AEIndex /\
+  op_load WAny (HVec (DObjects [5; 6])) 0x3FF0000000000000 = AErr AEIndex /\
+  op_load WArray (HArray (DFloats [0x4025000000000000; 0x4034800000000000])) (v_int 1) = AOk (Some 0x4034800000000000) (HArray (DFloats [0x4025000000000000; 0x4034800000000000])) /\
+  op_load WArray (HArray (DInts [1%Z])) (v_int 140737488355327) = AErr AEIndex /\
+  op_store WVec (HVec (DInts [1%Z])) (v_bool true) (v_int 2) = AErr AEIndex /\
+  array_op 136 (HArray (DFloats [0])) v_null 0 = Some (AErr AEIndex).
+Proof. exact opcode_level_nonvacuous. Qed.
+
 Example C06_typed_array_nonvacuous :
   aset (anew KI 2) 0 (v_int 7) = Some (DInts [7%Z; 0%Z]) /\
   aset (anew KI 2) 0 0x4004000000000000 = None /\
